@@ -226,9 +226,13 @@ pub fn default_pair(needle: &[u8]) -> Option<(usize, usize)> {
 
 /// Returns the haystack and, per piece, the range it occupies.
 pub fn build_haystack(needle: &[u8], pieces: &[Piece], max_len: usize) -> Vec<u8> {
+    build_haystack_with_pair(needle, pieces, max_len, default_pair(needle))
+}
+
+/// Like `build_haystack`, aiming rare-byte runs and false candidates at the given pair of needle offsets.
+pub fn build_haystack_with_pair(needle: &[u8], pieces: &[Piece], max_len: usize, pair: Option<(usize, usize)>) -> Vec<u8> {
     let n = needle.len();
     let per = oracle::period(needle);
-    let pair = default_pair(needle);
     let mut h: Vec<u8> = Vec::new();
     for p in pieces {
         if h.len() >= max_len {
